@@ -22,9 +22,23 @@ impl Emitter for FilesWithBackupEmitter {
             let tmp_name = filename.with_extension("tmp");
             let bk_name = filename.with_extension("bk");
 
+            #[cfg(feature = "verif-hooks")]
+            crate::verif_hooks::crash_point("backup:0");
+            #[cfg(feature = "verif-hooks")]
+            crate::verif_hooks::fail_point("backup:0")?;
             fs::write(&tmp_name, formatted_text)?;
+            #[cfg(feature = "verif-hooks")]
+            crate::verif_hooks::crash_point("backup:1");
+            #[cfg(feature = "verif-hooks")]
+            crate::verif_hooks::fail_point("backup:1")?;
             fs::rename(filename, bk_name)?;
+            #[cfg(feature = "verif-hooks")]
+            crate::verif_hooks::crash_point("backup:2");
+            #[cfg(feature = "verif-hooks")]
+            crate::verif_hooks::fail_point("backup:2")?;
             fs::rename(tmp_name, filename)?;
+            #[cfg(feature = "verif-hooks")]
+            crate::verif_hooks::crash_point("backup:3");
         }
         Ok(EmitterResult::default())
     }
